@@ -382,7 +382,8 @@ Fixpoint unm (fuel : nat) (o : copts) (R : registry) (t : ty) (cur : gval) (ts :
             | TBytes, VBytes s => Ok (GBytes false s, rest)
             | TByteArray n, VBytes s =>
                 let old := bytes_of_gval cur in
-                Ok (GBytes false (firstn n s ++ skipn (length s) old), rest)
+                if Nat.ltb n (length s) then Err ETooMany      (* more bytes than the array holds: as for an Array token *)
+                else Ok (GBytes false (firstn n s ++ skipn (length s) old), rest)
             | TAny, VBytes s => Ok (GAny (Some (TBytes, GBytes false s)), rest)
             | _, _ => mism
             end
